@@ -3,6 +3,7 @@ import Driver.C13
 import Driver.TreeD
 import Driver.Small
 import Driver.RepoD
+import Driver.FilterD
 /-! `mlsmodel <mode>`: reads queries from stdin, prints one model answer per line. -/
 
 def splitWs (line : String) : List String :=
@@ -21,6 +22,7 @@ def main (args : List String) : IO UInt32 := do
   match args with
   | ["c20"] => loopS stdin stdout (fun (_ : Unit) ws => ((), Driver.C20.handle ws)) (); return 0
   | ["repo"] => loopS stdin stdout Driver.RepoD.step { backend := .mem, ret := 3 }; return 0
+  | ["filter"] => loopS stdin stdout (fun (_ : Unit) ws => ((), Driver.FilterD.handle ws)) (); return 0
   | ["small"] => loopS stdin stdout (fun (_ : Unit) ws => ((), Driver.Small.handle ws)) (); return 0
   | ["tree"] => loopS stdin stdout Driver.TreeD.step {}; return 0
   | ["c13"] => loopS stdin stdout Driver.C13.step {}; return 0
